@@ -288,6 +288,7 @@ func (w *World) ApplyAPI(call string) error {
 // Restart closes the manager cleanly and starts a new one on the same directories.  Views are
 // released first (a view cannot outlive its manager).
 func (w *World) Restart() error {
+	w.Restarted = true
 	for _, hv := range w.Views {
 		if !hv.Released {
 			hv.View.Release()
